@@ -3,7 +3,7 @@ from mirsym.harness import Check
 from . import scen
 from .C01 import ASSUME
 
-QUICK = ["seq2", "two_if", "catch_act", "msg_set", "par_block", "env_flow", "catch_none", "if_else_last", "if_else_first", "needs"]
+QUICK = ["seq2", "two_if", "catch_act", "msg_set", "par_block", "env_flow", "catch_none", "if_else_last", "if_else_first", "needs", "two_scope_vars"]
 
 
 def main(tier, seed):
